@@ -13,7 +13,7 @@ class LeafSum:
     """plain-data summary of one path"""
     __slots__ = ("op", "can_emit", "pre", "base_open", "bound_hit", "post", "flags", "version", "memo_n0", "memo_events",
                  "events", "writes", "panics", "end", "ret", "atoms", "src_mode", "mutators_empty", "script",
-                 "proto_emitted_pre", "proto_emitted_post", "out_marks", "steps", "unsafe_mode", "popped")
+                 "proto_emitted_pre", "proto_emitted_post", "out_marks", "steps", "unsafe_mode", "popped", "config_changes")
 
     def describe(self):
         pre = ["|".join(sorted(c["kinds"])) if len(c["kinds"]) <= 4 else "*(%d)" % len(c["kinds"]) for c in self.pre]
@@ -74,6 +74,7 @@ def summarise(ctx, op, run, I, h, can, ret, end, unsafe_mode):
     if cur is pe:
         s.proto_emitted_post = "unchanged"
     s.steps = run.steps
+    s.config_changes = h.config_changes()
     s.popped = [e[1].id for e in run.events if e[0] == "pop"]
     return s
 
